@@ -245,8 +245,8 @@ func Chunks[T any, Slice ~[]T](vs Slice, n int) []Slice {
 func Batches[T any, Slice ~[]T](vs Slice, n int) []Slice {
 	if n < 0 {
 		panic("n out of range")
-	} else if n == 0 {
-		return nil
+	} else if n == 0 || len(vs) == 0 {
+		return nil // no batches; also avoids dividing by a capped n of 0
 	} else if n > len(vs) {
 		n = len(vs)
 	}
